@@ -132,6 +132,13 @@ SeedOps ==
       [] Seed = "fac3"  -> << N("n1", "S1"), C("n1", "c1", "nic2"),
                               [op |-> "AddFacility", name |-> "f1", site |-> "S1", rp |-> <<>>, ifs |-> <<"fa", "fb", "fc">>],
                               [op |-> "AddService", name |-> "s1", nstype |-> "L2STS", site |-> "", rp |-> <<>>, ifs |-> <<"n1/c1/n1-c1-l2ovs/c1-p1">>] >>
+      \* a port with two sub-interfaces (one of them connected), another port with one
+      [] Seed = "subs"  -> << N("n1", "S1"), C("n1", "c1", "nic2"), N("n2", "S1"),
+                              [op |-> "AddSubInterface", i |-> "n1/c1/n1-c1-l2ovs/c1-p1", name |-> "sub1", vlan |-> "100"],
+                              [op |-> "AddSubInterface", i |-> "n1/c1/n1-c1-l2ovs/c1-p1", name |-> "sub2", vlan |-> "200"],
+                              [op |-> "AddSubInterface", i |-> "n1/c1/n1-c1-l2ovs/c1-p2", name |-> "sub1", vlan |-> "100"],
+                              [op |-> "AddService", name |-> "s1", nstype |-> "L2Bridge", site |-> "", rp |-> <<>>,
+                               ifs |-> <<"n1/c1/n1-c1-l2ovs/c1-p1/sub2", "n1/c1/n1-c1-l2ovs/c1-p2/sub1">>] >>
       \* a richer seed: sub-interface connected to a service, a facility, two peered services
       [] Seed = "rich"  -> << N("n1", "S1"), C("n1", "c1", "nic2"), N("n2", "S2"), C("n2", "c1", "nic2"),
                               [op |-> "AddSubInterface", i |-> "n1/c1/n1-c1-l2ovs/c1-p2", name |-> "sub1", vlan |-> "100"],
